@@ -258,10 +258,15 @@ pub fn comment_class(cm: &str) -> String {
         "@completion".into()
     } else if !cm.is_empty() && cm == a {
         "@aux".into()
+    } else if cm.contains(LOW_SCOP_TAG) {
+        "@lowscop".into()
     } else {
         cm.to_string()
     }
 }
+
+/// tag the library reads in the comment of an ambient-heat consumption (heat pump with a low seasonal performance)
+pub const LOW_SCOP_TAG: &str = "CTEEPBD_EXCLUYE_SCOP_ACS";
 
 /// abstract view of a parsed (normalised) component set
 pub fn abs_of_components(c: &Components) -> Vec<AbsComp> {
